@@ -149,7 +149,8 @@ def run_case(case, ctx):
         rho0[1:, 1:] = build.random_state(rng, dim - 1)
         with ctx.lib("propagation in both forms", mechanism=None):
             with contextlib.redirect_stdout(io.StringIO()):
-                e_o = qm.ReducedDensityMatrixPropagator(tp, ham, Ro).propagate(qr.ReducedDensityMatrix(data=rho0.copy()), method=case["method"], Nref=case["nref"])
+                P_o = qm.ReducedDensityMatrixPropagator(tp, ham, Ro)
+                e_o = P_o.propagate(qr.ReducedDensityMatrix(data=rho0.copy()), method=case["method"], Nref=case["nref"])
                 e_t = qm.ReducedDensityMatrixPropagator(tp, ham, Rt).propagate(qr.ReducedDensityMatrix(data=rho0.copy()), method=case["method"], Nref=case["nref"])
                 d_o, d_t = numpy.array(e_o.data), numpy.array(e_t.data)
                 with qr.eigenbasis_of(ham):
@@ -168,6 +169,21 @@ def run_case(case, ctx):
                 with qr.eigenbasis_of(ham):
                     Tc_e = numpy.array(Ro.data)
                     Tt_e = numpy.array(Rt.data)
+        # the propagator object made while the tensor was held as operators, used again after the conversion, outside and inside contexts
+        with ctx.lib("propagator made before the conversion, used after it", mechanism=None):
+            with contextlib.redirect_stdout(io.StringIO()):
+                d_after = {}
+                d_after["outside"] = numpy.array(P_o.propagate(qr.ReducedDensityMatrix(data=rho0.copy()), method=case["method"], Nref=case["nref"]).data)
+                r_x, r_y = qr.ReducedDensityMatrix(data=rho0.copy()), qr.ReducedDensityMatrix(data=rho0.copy())
+                with qr.eigenbasis_of(ham):
+                    e_x = P_o.propagate(r_x, method=case["method"], Nref=case["nref"])
+                d_after["eigenbasis_of(H)"] = numpy.array(e_x.data)
+                with qr.eigenbasis_of(sao):
+                    e_y = P_o.propagate(r_y, method=case["method"], Nref=case["nref"])
+                d_after["eigenbasis_of(random)"] = numpy.array(e_y.data)
+        for nm_, dd_ in d_after.items():
+            ctx.check("propagate:operators==tensor", float(numpy.max(numpy.abs(dd_ - d_t))), 1e-10, dict(det, method=case["method"], Nref=case["nref"],
+                                                                                                         what="propagator made before convert_2_tensor, used after it " + nm_))
         ctx.check("converted==tensor", float(numpy.max(numpy.abs(Tc - Tt))), 1e-12 * sc * dim * dim, det)
         ctx.check("converted==tensor", float(numpy.max(numpy.abs(Tc_apply - Tt))), 1e-12 * sc * dim * dim, dict(det, what="apply() after conversion"))
         ctx.check("converted==tensor", float(numpy.max(numpy.abs(Tc2 - Tc))), 0.0, dict(det, what="second conversion"))
